@@ -5,7 +5,6 @@ import (
 	"encoding/binary"
 	"fmt"
 	"net"
-	"sync"
 	"sync/atomic"
 	"time"
 
@@ -37,7 +36,7 @@ type brokerConfig struct {
 // mutable state.
 type fakeBroker struct {
 	cfg     brokerConfig
-	wg      sync.WaitGroup
+	active  int64 // serving goroutines (a late dial may come while wait polls: no WaitGroup)
 	fetches int64
 	conns   int64
 }
@@ -65,9 +64,9 @@ func newFakeBroker(cfg brokerConfig) *fakeBroker {
 func (b *fakeBroker) dial() net.Conn {
 	client, server := net.Pipe()
 	atomic.AddInt64(&b.conns, 1)
-	b.wg.Add(1)
+	atomic.AddInt64(&b.active, 1)
 	go func() {
-		defer b.wg.Done()
+		defer atomic.AddInt64(&b.active, -1)
 		defer server.Close()
 		b.serve(server)
 	}()
@@ -77,14 +76,12 @@ func (b *fakeBroker) dial() net.Conn {
 // wait waits for every serving goroutine to exit (they do when the client
 // end is closed); false if they did not within the timeout.
 func (b *fakeBroker) wait(timeout time.Duration) bool {
-	done := make(chan struct{})
-	go func() { b.wg.Wait(); close(done) }()
-	select {
-	case <-done:
-		return true
-	case <-time.After(timeout):
-		return false
+	for t0 := time.Now(); atomic.LoadInt64(&b.active) != 0; time.Sleep(200 * time.Microsecond) {
+		if time.Since(t0) > timeout {
+			return false
+		}
 	}
+	return true
 }
 
 func (b *fakeBroker) serve(c net.Conn) {
@@ -119,7 +116,7 @@ func (b *fakeBroker) serve(c net.Conn) {
 func (b *fakeBroker) apiVersions() *apiversions.Response {
 	if b.cfg.allApis {
 		return &apiversions.Response{ApiKeys: []apiversions.ApiKeyResponse{
-			{ApiKey: int16(protocol.Fetch), MinVersion: 0, MaxVersion: 11},
+			{ApiKey: int16(protocol.Fetch), MinVersion: 0, MaxVersion: 10},
 			{ApiKey: int16(protocol.ListOffsets), MinVersion: 0, MaxVersion: 5},
 			{ApiKey: int16(protocol.Metadata), MinVersion: 0, MaxVersion: 8},
 			{ApiKey: int16(protocol.ApiVersions), MinVersion: 0, MaxVersion: 2},
